@@ -36,6 +36,9 @@ pub enum Tok {
     I64(i64),
     Bool(bool),
     Str(String),
+    /// `serialize_some` / `serialize_none`: formats such as RON write a present option differently from the bare value
+    Some(Box<Tok>),
+    None,
     Other(String),
 }
 
@@ -59,6 +62,8 @@ impl Tok {
             Tok::I64(_) => "i64",
             Tok::Bool(_) => "bool",
             Tok::Str(_) => "str",
+            Tok::Some(_) => "some",
+            Tok::None => "none",
             Tok::Other(_) => "other",
         }
     }
@@ -191,11 +196,11 @@ impl<'p> Serializer for Rec<'p> {
 
     fn serialize_none(self) -> Result<Tok, SimError> {
         self.peer.call()?;
-        Ok(Tok::Other("none".into()))
+        Ok(Tok::None)
     }
     fn serialize_some<T: Serialize + ?Sized>(self, value: &T) -> Result<Tok, SimError> {
         self.peer.call()?;
-        value.serialize(Rec { peer: self.peer })
+        Ok(Tok::Some(Box::new(value.serialize(Rec { peer: self.peer })?)))
     }
     fn serialize_unit(self) -> Result<Tok, SimError> {
         self.peer.call()?;
@@ -389,11 +394,15 @@ pub struct Presentation {
     pub alpha_present: bool,
     /// an extra key the color does not know, at this position (None: no such key). Only with string-like keys.
     pub unknown_key_at: Option<u8>,
+    /// how the peer answers `deserialize_option` on a value that was not written as an option:
+    /// false = like JSON (any non-null value is `Some`), true = like RON (`ExpectedOption`)
+    #[serde(default)]
+    pub strict_option: bool,
 }
 
 impl Presentation {
     pub fn plain() -> Self {
-        Presentation { struct_as: StructAs::Map, key_form: KeyForm::BorrowedStr, alpha_pos: 255, order: 0, size_hint: true, alpha_present: true, unknown_key_at: None }
+        Presentation { struct_as: StructAs::Map, key_form: KeyForm::BorrowedStr, alpha_pos: 255, order: 0, size_hint: true, alpha_present: true, unknown_key_at: None, strict_option: false }
     }
 }
 
@@ -425,6 +434,7 @@ impl<'de, 'p> Replay<'de, 'p> {
             Tok::Str(s) => visitor.visit_borrowed_str(s),
             Tok::Unit => visitor.visit_unit(),
             Tok::Newtype { inner, .. } => self.child(inner).scalar(visitor),
+            Tok::Some(inner) if !self.pres.strict_option => self.child(inner).scalar(visitor),
             other => Err(SimError(format!("SimFormat: expected a scalar, the document has a {}", other.kind()))),
         }
     }
@@ -457,7 +467,14 @@ impl<'de, 'p> Replay<'de, 'p> {
             }
         }
         let hint = self.top && self.pres.size_hint || !self.top;
-        visitor.visit_seq(SeqReplay { items, pos: 0, parent: self, hint })
+        let n = items.len();
+        let consumed = Cell::new(0usize);
+        let out = visitor.visit_seq(SeqReplay { items, pos: &consumed, parent: self, hint })?;
+        // like serde_json's `end_seq`: a visitor that leaves elements behind is an error of the conversation
+        if consumed.get() < n {
+            return Err(SimError(format!("SimFormat: trailing elements: the visitor consumed {} of {n} sequence elements", consumed.get())));
+        }
+        Ok(out)
     }
 
     fn present_map<V: Visitor<'de>>(&self, fields: &'static [&'static str], visitor: V) -> Result<V::Value, SimError> {
@@ -495,7 +512,14 @@ impl<'de, 'p> Replay<'de, 'p> {
             }
         }
         let hint = self.top && self.pres.size_hint || !self.top;
-        visitor.visit_map(MapReplay { entries: keyed, pos: 0, parent: self, hint, pending: None })
+        let n = keyed.len();
+        let consumed = Cell::new(0usize);
+        let out = visitor.visit_map(MapReplay { entries: keyed, pos: &consumed, parent: self, hint, pending: None })?;
+        // like serde_json's `end_map`: a visitor that stops before the last entry is an error of the conversation
+        if consumed.get() < n {
+            return Err(SimError(format!("SimFormat: trailing entries: the visitor consumed {} of {n} map entries", consumed.get())));
+        }
+        Ok(out)
     }
 }
 
@@ -562,7 +586,12 @@ impl<'de, 'p> Deserializer<'de> for Replay<'de, 'p> {
 
     fn deserialize_option<V: Visitor<'de>>(self, visitor: V) -> Result<V::Value, SimError> {
         self.peer.call()?;
-        visitor.visit_some(self)
+        match self.tok {
+            Tok::None => visitor.visit_none(),
+            Tok::Some(inner) => visitor.visit_some(self.child(inner)),
+            other if self.pres.strict_option => Err(SimError(format!("SimFormat: expected an option, the document has a {}", other.kind()))),
+            _ => visitor.visit_some(self),
+        }
     }
     fn deserialize_unit<V: Visitor<'de>>(self, visitor: V) -> Result<V::Value, SimError> {
         self.peer.call()?;
@@ -618,7 +647,7 @@ impl<'de, 'p> Deserializer<'de> for Replay<'de, 'p> {
 
 struct SeqReplay<'a, 'de, 'p> {
     items: Vec<&'de Tok>,
-    pos: usize,
+    pos: &'a Cell<usize>,
     parent: &'a Replay<'de, 'p>,
     hint: bool,
 }
@@ -627,16 +656,16 @@ impl<'a, 'de, 'p> SeqAccess<'de> for SeqReplay<'a, 'de, 'p> {
     type Error = SimError;
     fn next_element_seed<T: DeserializeSeed<'de>>(&mut self, seed: T) -> Result<Option<T::Value>, SimError> {
         self.parent.peer.call()?;
-        if self.pos >= self.items.len() {
+        if self.pos.get() >= self.items.len() {
             return Ok(None);
         }
-        let tok = self.items[self.pos];
-        self.pos += 1;
+        let tok = self.items[self.pos.get()];
+        self.pos.set(self.pos.get() + 1);
         seed.deserialize(self.parent.child(tok)).map(Some)
     }
     fn size_hint(&self) -> Option<usize> {
         if self.hint {
-            Some(self.items.len() - self.pos)
+            Some(self.items.len() - self.pos.get())
         } else {
             None
         }
@@ -645,7 +674,7 @@ impl<'a, 'de, 'p> SeqAccess<'de> for SeqReplay<'a, 'de, 'p> {
 
 struct MapReplay<'a, 'de, 'p> {
     entries: Vec<Entry<'de>>,
-    pos: usize,
+    pos: &'a Cell<usize>,
     parent: &'a Replay<'de, 'p>,
     hint: bool,
     pending: Option<Option<&'de Tok>>,
@@ -692,11 +721,11 @@ impl<'a, 'de, 'p> MapAccess<'de> for MapReplay<'a, 'de, 'p> {
     type Error = SimError;
     fn next_key_seed<K: DeserializeSeed<'de>>(&mut self, seed: K) -> Result<Option<K::Value>, SimError> {
         self.parent.peer.call()?;
-        if self.pos >= self.entries.len() {
+        if self.pos.get() >= self.entries.len() {
             return Ok(None);
         }
-        let e = &self.entries[self.pos];
-        self.pos += 1;
+        let e = &self.entries[self.pos.get()];
+        self.pos.set(self.pos.get() + 1);
         self.pending = Some(e.value);
         if e.name == "alpha" {
             self.parent.peer.alpha_call.set(Some(self.parent.peer.calls.get() - 1));
@@ -713,7 +742,7 @@ impl<'a, 'de, 'p> MapAccess<'de> for MapReplay<'a, 'de, 'p> {
     }
     fn size_hint(&self) -> Option<usize> {
         if self.hint {
-            Some(self.entries.len() - self.pos)
+            Some(self.entries.len() - self.pos.get())
         } else {
             None
         }
